@@ -60,7 +60,10 @@ def gen_names(rng, n, hostile, extra=(), first=()):
             out.append(rng.choice(hostile))
         else:
             out.append(rng.choice(extra))
-    return out
+    # a name may arrive as an instance of a str subclass (a wrapped label, a str-mixin Enum member): equal to and hashing like the plain
+    # string, possibly with a different str() - it is the same name
+    from vlib import reps
+    return [reps.as_str(rng, n, 0.12) for n in out]
 
 
 class LibDriver:
@@ -112,6 +115,8 @@ class LibDriver:
             raise CaseViolation(f'{self.label}: add_tag({name[:60]!r}) raised {type(e).__name__}({e}) - only DuplicateTagError is documented',
                                 accepted_so_far=self.ref[:30])
         ctx.ev()
+        if type(name) is not str:
+            ctx.count('names_as_str_subclass')
         if accepted:
             if must_reject:
                 raise CaseViolation(f'{self.label}: add_tag({name[:60]!r}) accepted a name that is already a tag', accepted_so_far=self.ref[:30])
